@@ -190,7 +190,7 @@ func (f *fixture) mk(s scen) interfaces.Transaction {
 
 // sequential reference verdicts: against the state before and after the block
 func (f *fixture) refVerdicts(s scen) (before, after string) {
-	if s.Kind == "checkpoint" || s.Kind == "producers" || s.Kind == "getters" {
+	if s.Kind == "checkpoint" || s.Kind == "producers" || s.Kind == "getters" || isMempoolKind(s.Kind) {
 		return "equal", "equal"
 	}
 	f.freshState(s.Kind == "voting")
@@ -349,6 +349,9 @@ func (f *fixture) gettersScenario(s scen) *vsched.Scenario {
 }
 
 func (f *fixture) scenario(s scen, before, after string) *vsched.Scenario {
+	if isMempoolKind(s.Kind) { // mempool.go
+		return f.mempoolScenario(s)
+	}
 	if s.Kind == "getters" {
 		return f.gettersScenario(s)
 	}
@@ -426,6 +429,7 @@ func scenarios(r *evid.Run) []scen {
 	}
 	out = append(out, scen{Name: fmt.Sprintf("returnvotes-5-query-b%d", qb), Kind: "returnvotes", Value: 5, Query: true, Bound: qb})
 	out = append(out, scen{Name: fmt.Sprintf("voting-15-query-b%d", qb), Kind: "voting", Value: 15, Query: true, Bound: qb})
+	out = append(out, mempoolScens(r)...) // mempool.go
 	return out
 }
 
@@ -463,6 +467,8 @@ func freeRun(f *fixture, n int) {
 		go func() { defer wg.Done(); st.ProcessBlock(blk, nil, 0) }()
 		go func() { defer wg.Done(); snap.Serialize(new(bytes.Buffer)) }()
 		wg.Wait()
+		// transaction pool: admission ‖ conflicting admission ‖ checkpoint snapshot ‖ block cleanup ‖ queries
+		mempoolFreeRun(f)
 	}
 	fmt.Println("free-run done")
 }
@@ -631,6 +637,13 @@ func raceFindings(r *evid.Run, n int) map[string]interface{} {
 			rep = rep[:3000]
 		}
 		r.Violate(s, "race detector: unsynchronised concurrent access between block processing and validation/query", map[string]interface{}{"race_report": rep})
+	}
+	// sequential epilogue of the mempool bodies: the pool left by the concurrent phase is inconsistent
+	for _, l := range strings.Split(out, "\n") {
+		if rest, ok := strings.CutPrefix(l, "MEMPOOL-INCONSISTENT "); ok {
+			sig, what, _ := strings.Cut(rest, " ")
+			r.Violate(sig, "free-running pass: "+what, map[string]interface{}{"free_run": true})
+		}
 	}
 	fatal := ""
 	if strings.Contains(out, "fatal error: concurrent map") {
